@@ -204,6 +204,59 @@ def audit_axioms(prop_id):
     return res, examples, out
 
 
+def _sources_digest():
+    import hashlib
+    h = hashlib.sha256()
+    for path in lean_sources() + [os.path.join(LEAN_DIR, 'TieAudit.lean')]:
+        h.update(path.encode()); h.update(open(path, 'rb').read())
+    return h.hexdigest()
+
+
+def tie_audit(prop_id):
+    """Mechanical measurement of the tie (lean/TieAudit.lean): which definitions in the statements of this
+    property's theorems are the ones the native driver executes.  Cached per digest of the Lean sources.
+    Returns a dict (or {'error': ...}); never affects the verdict."""
+    ns, names, _ = property_theorems(prop_id)
+    audit_dir = os.path.join(LEAN_DIR, '.lake', 'audit')
+    os.makedirs(audit_dir, exist_ok=True)
+    cache = os.path.join(audit_dir, prop_id + '_tie.json')
+    digest = _sources_digest()
+    try:
+        c = json.load(open(cache))
+        if c.get('digest') == digest:
+            return c['result']
+    except Exception:
+        pass
+    ok, log = lake_build(['TieAudit'])
+    if not ok:
+        return {'error': 'TieAudit did not build'}
+    drivers = sorted(f[:-5] for f in os.listdir(os.path.join(LEAN_DIR, 'HcipyVerif', 'Driver')) if f.endswith('.lean'))
+    path = os.path.join(audit_dir, prop_id + '_tie.lean')
+    with open(path, 'w') as f:
+        f.write('import TieAudit\nimport HcipyVerif.Properties.%s\n' % prop_id)
+        for d in drivers:
+            f.write('import HcipyVerif.Driver.%s\n' % d)
+        full = ['`' + ((ns + '.' + n) if ns and not n.startswith('_root_.') else n) for n in names]
+        f.write('#eval TieAudit.run `HcipyVerif.Properties.%s #[%s]\n' % (prop_id, ', '.join(full)))
+    rc, out = _run(['lake', 'env', 'lean', path], cwd=LEAN_DIR)
+    m = re.search(r'TIEAUDIT-BEGIN\n(.*)\nTIEAUDIT-END', out, re.S)
+    if not m:
+        return {'error': 'no output', 'log': out[-400:]}
+    try:
+        res = json.loads(m.group(1))
+    except Exception as e:
+        return {'error': 'unparsable: %s' % e}
+    per = res.pop('per_theorem', [])
+    res['rule'] = ('executed = reachable from a HcipyVerif.Driver.*.step through definition bodies; derived = thin wrapper '
+                   '(<= 3 unexecuted definitions) over executed ones; parallel = unfolding shares helpers with the executed model '
+                   'but has > 3 definitions no driver runs; free = no definitional connection (specification functions, pure mathematics)')
+    res['status_by_theorem'] = {t['name'].split('.')[-1]: t['status'] for t in per}
+    res['parallel_or_free_defs'] = sorted({d for t in per for d in t['parallel'] + t['free']})
+    with open(cache, 'w') as f:
+        json.dump({'digest': digest, 'result': res}, f)
+    return res
+
+
 class Driver:
     """Batch access to the Lean model: send request lines, get one response line per request."""
 
@@ -290,6 +343,12 @@ class Ctx:
     def model(self, lines):
         if self.driver is None:
             self.driver = Driver()
+        lines = list(lines)
+        ops = self.extra.setdefault('driver_ops_sent', {})   # which front-end ops this run really exercised
+        for l in lines:
+            if l and not l.startswith('#'):
+                k = ' '.join(l.split(' ', 2)[:2])
+                ops[k] = ops.get(k, 0) + 1
         return self.driver.ask(lines)
 
     def disagree(self, stream, detail, key=None):
@@ -325,6 +384,10 @@ class Ctx:
             else:
                 good += 1
         self.discharged = (good + examples) if not hits else 0
+        try:
+            self.extra['tie_audit'] = tie_audit(self.id)
+        except Exception as e:       # a measurement, never a verdict
+            self.extra['tie_audit'] = {'error': repr(e)}
         if self.tier == 'thorough':
             # independent re-check of the compiled module by the toolchain's own checker
             rc, out = _run(['lake', 'env', 'leanchecker', 'HcipyVerif.Properties.' + self.id], cwd=LEAN_DIR)
